@@ -132,6 +132,12 @@ def enc2 (c k x y : Nat) : Nat := ofDigits 4 (run m2 c (zdigits2 k x y)).1
 /-- 3-D cell → index at order `k` from state `c` (machine level, any `k`). -/
 def enc3 (c k x y z : Nat) : Nat := ofDigits 8 (run m3 c (zdigits3 k x y z)).1
 
+/-- 2-D index → cell at order `k` from state `c` (inverse of `enc2`). -/
+def dec2 (c k h : Nat) : Nat × Nat := ((dec m2 c k h).1, (dec m2 c k h).2.1)
+
+/-- 3-D index → cell at order `k` from state `c` (inverse of `enc3`). -/
+def dec3 (c k h : Nat) : Nat × Nat × Nat := dec m3 c k h
+
 /-- L1 distance of two cells. -/
 def dist1 (a b : Nat) : Nat := (a - b) + (b - a)
 def l1 (p q : Nat × Nat × Nat) : Nat := dist1 p.1 q.1 + dist1 p.2.1 q.2.1 + dist1 p.2.2 q.2.2
